@@ -152,3 +152,308 @@ def exec_d_rows(prog, E, rx, is_container):
         else:
             rows.append((e, True, ''))
     return rows
+
+
+# ======================================================================================================================
+# deepening round: obligations that do not depend on how a hash container is consumed / which clock is read
+# ======================================================================================================================
+import re
+
+CRATES = ('libcnb', 'libcnb_data', 'libcnb_common')
+HASH_HEAD = re.compile(r'(^|::)(HashMap|HashSet|IndexMap|IndexSet|FxHashMap|FxHashSet|AHashMap|AHashSet)$')
+HASH_ITER_TY = re.compile(r'\b(hash_map|hash_set)::(Iter|IterMut|IntoIter|Keys|Values|ValuesMut|IntoKeys|IntoValues|Drain|'
+                          r'Union|Intersection|Difference|SymmetricDifference|ExtractIf)\b')
+BTREE_HEAD = re.compile(r'(^|::)(BTreeMap|BTreeSet)$')
+
+# --- R3: sources of values that differ between two processes running on identical inputs -----------------------------
+# by what they read, not by one spelling: the wall/monotonic clock (also through `elapsed`), time stamps and inode
+# identity of files, process / thread identity, the per-process hash seed, PRNGs and random names, addresses
+NONDET_FAMILIES = (
+    ('clock', re.compile(r'^std::time::(SystemTime|Instant)::(now|elapsed)$|^(chrono|time|jiff|humantime)::|^std::time::Instant::')),
+    ('file time stamp / inode', re.compile(r'^std::fs::Metadata::(modified|accessed|created)$|'
+                                           r'^std::os::(unix|linux)::fs::MetadataExt::(st_)?(mtime|atime|ctime|ino|dev|rdev)(_nsec)?$|'
+                                           r'^std::fs::FileTimes|^filetime::')),
+    ('process / thread identity', re.compile(r'^std::process::id$|^std::os::unix::process::parent_id$|^std::thread::current$|'
+                                             r'^std::thread::Thread::id$|^libc::get(pid|ppid|tid)$|^std::process::Child::id$')),
+    ('per-process hash seed', re.compile(r'\bRandomState\b')),
+    ('randomness', re.compile(r'^(fastrand|rand|rand_core|uuid|getrandom|nanoid|ulid|tempfile)::|^std::env::temp_dir$')),
+    ('address', re.compile(r'std::fmt::Pointer\b')),
+)
+SCHEDULE_RX = re.compile(r'^std::thread::(spawn|scope|Builder::spawn|Builder::spawn_scoped|Scope::spawn)\b|^(rayon|crossbeam|tokio)::|'
+                         r'^std::sync::mpsc::')
+
+
+def nondet_family(name):
+    for fam, rx in NONDET_FAMILIES:
+        if rx.search(name or ''):
+            return fam
+    return None
+
+
+def nondet_calls(f):
+    """[(family, Call)] of calls in f that read something that differs between two processes"""
+    out = []
+    for c in f.calls:
+        for n in sorted(c.names()):
+            fam = nondet_family(n)
+            if fam:
+                out.append((fam, c))
+                break
+    return out
+
+
+def library_fns(prog, out_of_subject):
+    """every function of the library crates whose code runs between the buildpack author's logic and the bytes of an
+    output (builders, conversions, trait impls, layer API, runtime), i.e. everything but derived code and the
+    telemetry exporter"""
+    return {p: f for p, f in prog.fns.items() if f.crate in CRATES and not f.derived and not out_of_subject.match(p)}
+
+
+# --- R2: order-observing uses of a hash container that are not spelled as an iteration -------------------------------
+ORDER_FREE_METHOD = re.compile(r'^std::collections::(hash_map::|hash_set::)?(HashMap|HashSet)::<.*>::(new|with_capacity|with_hasher|'
+                               r'with_capacity_and_hasher|insert|get|get_mut|get_key_value|get_many_mut|contains_key|contains|remove|'
+                               r'remove_entry|take|replace|entry|len|is_empty|clear|reserve|try_reserve|shrink_to_fit|shrink_to|capacity|'
+                               r'hasher|get_or_insert_with|is_subset|is_superset|is_disjoint|try_insert)$')
+ORDER_FREE_DECL = {'std::clone::Clone::clone', 'std::clone::Clone::clone_from', 'std::default::Default::default',
+                   'std::cmp::PartialEq::eq', 'std::cmp::PartialEq::ne', 'std::ops::Index::index', 'std::mem::take',
+                   'std::mem::swap', 'std::mem::replace', 'std::mem::drop', 'std::ops::Deref::deref', 'std::ops::DerefMut::deref_mut',
+                   'std::borrow::Borrow::borrow', 'std::convert::AsRef::as_ref', 'std::borrow::ToOwned::to_owned'}
+
+
+def _arg_local(f, op):
+    pl = op_place(op)
+    if not pl:
+        return None
+    # the type head (references peeled) of `*x` is the head of x
+    return f.locals[pl[0]] if all(x == '*' for x in pl[1:]) else None
+
+
+def _is_hash_container(loc):
+    return bool(loc) and bool(HASH_HEAD.search(loc.get('head') or ''))
+
+
+def implicit_hash_uses(prog, f, explicit):
+    """[(Call, argument index)]: a hash-ordered container handed *as a whole* to code that can observe its order
+    (`vec.extend(map)`, `Vec::from_iter(set)`, `iter.chain(map)`, `format!("{map:?}")`, `toml::to_string(&map)`,
+    `serializer.collect_map(&map)`, a generic workspace function).  Order-free container API (lookup, insertion, size,
+    clone, equality), conversions into another unordered / sorted container and workspace functions that declare the
+    parameter as a hash container (their own body is analysed) are not uses.  `explicit` = calls already recognised as
+    iterations."""
+    out = []
+    for c in f.calls:
+        if c in explicit or not c.args:
+            continue
+        locs = [_arg_local(f, a) for a in c.args]
+        idx = [i for i, l in enumerate(locs) if _is_hash_container(l)]
+        if not idx:
+            continue
+        names = c.names()
+        if any(ORDER_FREE_METHOD.match(n) for n in names) or (names & ORDER_FREE_DECL):
+            continue
+        decl = c.decl or c.name or ''
+        if decl == 'std::iter::Extend::extend' and 0 in idx:
+            # growing a hash container: the order in which elements arrive is not observable afterwards
+            continue
+        if decl in ('std::iter::FromIterator::from_iter', 'std::iter::Iterator::collect', 'std::convert::From::from', 'std::convert::Into::into'):
+            dhead = (c.dty or '').split('<')[0]
+            if HASH_HEAD.search(dhead) or BTREE_HEAD.search(dhead):
+                continue
+        callees = [] if c.indirect else prog.callee_fns(c)
+        if callees and all(g.crate in CRATES for g in callees):
+            idx = [i for i in idx if not all(i < g.argc and _is_hash_container(g.locals[i + 1]) for g in callees)]
+            if not idx:
+                continue
+        for i in idx:
+            out.append((c, i))
+    return out
+
+
+def workspace_hash_iterators(prog):
+    """workspace functions that hand out an iterator over a hash container (`Env::iter`, `<&Env as IntoIterator>`):
+    calling one of them is iterating the hash container"""
+    return {p for p, f in prog.fns.items() if f.crate in CRATES and not f.derived and HASH_ITER_TY.search(f.ret or '')}
+
+
+# --- R2: how an iteration over a triaged container is consumed --------------------------------------------------------
+ELEMENTWISE = set(iters.SAME) | {IT + 'map', IT + 'filter', IT + 'filter_map', IT + 'flat_map', IT + 'flatten', IT + 'inspect',
+                                 IT + 'chain', 'std::iter::IntoIterator::into_iter', IT + 'by_ref', IT + 'size_hint',
+                                 'std::iter::ExactSizeIterator::len'}
+COMPLETE = {IT + 'for_each', IT + 'try_for_each', IT + 'collect', IT + 'count', IT + 'sum', IT + 'product', IT + 'unzip',
+            IT + 'partition', IT + 'min', IT + 'max', 'std::iter::Extend::extend', 'std::iter::FromIterator::from_iter'}
+SHORT_CIRCUIT = {IT + 'try_for_each'}
+ORDER_KEEPING_SLICE = re.compile(r'^std::slice::<impl \[T\]>::(sort\w*|iter|iter_mut|len|is_empty)$')
+POSITIONAL = set(iters.TRUNCATING) | {IT + 'nth', IT + 'last', IT + 'zip', IT + 'nth_back', IT + 'next_back', IT + 'next_chunk',
+                                      IT + 'array_chunks', IT + 'advance_by'}
+
+
+ITER_VALUED = set(iters.SAME) | set(iters.FEWER) | set(iters.LAZY_WITH_CLOSURE) | {
+    IT + 'enumerate', IT + 'zip', IT + 'chain', IT + 'flatten', IT + 'flat_map', IT + 'cycle', IT + 'map_while', IT + 'scan',
+    IT + 'intersperse', IT + 'array_chunks', 'std::iter::DoubleEndedIterator::rev', 'std::iter::Extend::extend'}
+
+
+def _iterates(v, is_cont, depth=0):
+    """is v an iterator (or collected sequence) over the container"""
+    v = strip(v)
+    if is_cont(v):
+        return True
+    if depth > 14 or not isinstance(v, tuple) or not v:
+        return False
+    if v[0] == 'phi':
+        return any(_iterates(x, is_cont, depth + 1) for x in v[1])
+    if v[0] != 'call' or not v[2]:
+        return False
+    name, args = v[1], v[2]
+    # only calls whose result is again the sequence (adapters, sources, collections of it): `next`, `count`, `try_for_each`,
+    # `find` .. give an element / a number / a verdict
+    if name in ITER_VALUED or iters._is_source(name) or name in iters.COLLECTING or name.endswith('IntoIterator::into_iter'):
+        return any(_iterates(a, is_cont, depth + 1) for a in args[:2] if isinstance(a, tuple) and a and a[0] != 'closure')
+    return False
+
+
+def hash_iteration_shape(prog, sl, E, top, is_cont):
+    """(positional, undecided): calls in `top` and its closures that consume an iterator over the triaged container by
+    *position* (a prefix / suffix / every n-th / the first element: which elements those are depends on the hash
+    order), and calls whose way of consuming it is not known to visit every element independently of the order"""
+    positional, undecided = [], []
+    for g in [top] + prog.closures_of(top):
+        loop_next = {(lp.next_call.bb) for lp in E.loops(g) if lp.next_call is not None}
+        for c in g.calls:
+            if c.indirect or not c.args:
+                continue
+            hit = None
+            for i, a in enumerate(c.args[:2]):
+                v = sl.operand(g, a)
+                if isinstance(v, tuple) and v and not is_cont(strip(v)) and _iterates(v, is_cont):
+                    hit = i
+                    break
+            if hit is None:
+                continue
+            decl = c.decl or c.name or ''
+            short = decl.split('::')[-1]
+            if decl == IT + 'next':
+                if c.bb not in loop_next:
+                    positional.append('%s takes a single element (%s)' % (short, c.where()))
+                continue
+            if decl in POSITIONAL:
+                positional.append('%s (%s)' % (short, c.where()))
+            elif decl in SHORT_CIRCUIT or (decl in COMPLETE and (c.dty or '').startswith(('std::result::Result<', 'std::option::Option<'))):
+                # stops at the first failing element: complete only if that failure cannot end in success
+                from .lib.discard import ok_on_success
+                if not ok_on_success(prog, g, c):
+                    positional.append('%s stops at the first failing element and its failure can end in success (%s)' % (short, c.where()))
+            elif decl in ELEMENTWISE or decl in COMPLETE or decl in iters.COLLECTING or decl in ('std::vec::Vec::<T, A>::extend_from_slice',):
+                continue
+            elif decl.startswith(('std::ops::Try::', 'std::ops::FromResidual::', 'std::ops::Deref::', 'std::ops::DerefMut::',
+                                  'std::convert::AsRef::', 'std::borrow::Borrow::', 'std::mem::drop', 'std::clone::Clone::clone',
+                                  'std::vec::Vec::<T, A>::as_slice', 'std::vec::Vec::<T, A>::len', 'std::vec::Vec::<T, A>::is_empty')) \
+                    or ORDER_KEEPING_SLICE.match(decl):
+                continue
+            else:
+                undecided.append('%s (%s)' % (decl, c.where()))
+    return positional, undecided
+
+
+# --- R1: what is actually serialised -----------------------------------------------------------------------------------
+SINK_RX = re.compile(r'^(toml::(ser::)?to_(string|string_pretty|vec|writer)|toml::(value::)?(Value|Table)::try_from|'
+                     r'toml::map::Map::<.*>::try_from|serde_json::(ser::|value::)?to_\w+|serde_yaml::\w*::?to_\w+|'
+                     r'libcnb_common::toml_file::write_toml_file)$')
+ADT_PATH = re.compile(r'[A-Za-z_][A-Za-z0-9_]*(?:::[A-Za-z_][A-Za-z0-9_]*)+')
+
+
+GENERIC_TOKEN = re.compile(r"(?<![\w:'])([A-Z][A-Za-z0-9_]*)(?![\w]|::)")
+
+
+def generic_tokens(ty):
+    """names of generic parameters in a MIR type string: every ADT is printed with its full path, so a bare
+    capitalised identifier (`M`, `T`, the `Serialize` of `impl Serialize`) is a type parameter"""
+    return set(GENERIC_TOKEN.findall(ty or '')) - {'Self'}
+
+
+PROJECTION = re.compile(r'<[^<>]* as [^<>]*>::\w+')
+IMPL_TY = re.compile(r'impl [A-Za-z_][\w:]*(<[^<>]*>)?( \+ [A-Za-z_][\w:]*)*')
+
+
+def _norm_ty(t):
+    t = re.sub(r"'\w+ ?", '', t or '')
+    return t.replace('&mut ', '&')
+
+
+def unify(pattern, actual, toks):
+    """bindings of the type parameters `toks` when the declared parameter type `pattern` is instantiated with the
+    argument type `actual` (`Option<&T>` vs `Option<&launch::Launch>` -> {T: launch::Launch}); None if the shapes differ"""
+    pat = IMPL_TY.sub(lambda m: 'I' + m.group(0).split(' ')[1].split('::')[-1].split('<')[0], pattern or '')
+    p, a = _norm_ty(pat).lstrip('&'), _norm_ty(actual).lstrip('&')
+    rx = re.escape(p)
+    names = {}
+    for k, tok in enumerate(sorted(generic_tokens(pat), key=len, reverse=True)):
+        one = r'(?<![\w:])' + re.escape(tok) + r'(?![\w])'
+        rx, n = re.subn(one, '(?P<g%d>.+)' % k, rx, count=1)
+        if n:
+            names['g%d' % k] = tok
+            rx = re.sub(one, '.+', rx)
+    m = re.match('^' + rx + '$', a)
+    if not m:
+        return None
+    out = {}
+    for g, tok in names.items():
+        tok = tok[1:] if tok.startswith('I') and tok[1:] in toks else tok
+        out[tok] = m.group(g)
+    return out
+
+
+def serialised_types(prog, sl, walker=walk):
+    """[(sink Call, Fn in which this part of the serialised type is written down | None for a part chosen by the
+    caller of a public generic function / an associated type of a user trait, type string)] for every call of a
+    serialiser in the library crates.  Generic parts of the type (`&impl Serialize`, `Option<&T>`,
+    `LayerContentMetadata<M>`) are followed to the workspace call sites of the enclosing function: through the
+    parameters the serialised value is computed from (`walker` decides what counts as computed by the library), taking
+    what the caller's argument type puts in the place of the type parameter"""
+    callers = prog.callers()
+    rows = []
+    seen = set()
+
+    def go(f, ty, val, sink, depth):
+        if (id(sink), f.path, ty) in seen:
+            return
+        seen.add((id(sink), f.path, ty))
+        rows.append((sink, f, ty))
+        toks = generic_tokens(PROJECTION.sub('', ty))
+        if generic_tokens(ty) - toks:
+            rows.append((sink, None, ty))       # `<L as Layer>::Metadata`: chosen by the user's trait implementation
+        if not toks:
+            return
+        from_params = {x[2] + 1 for x in walker(val) if x[0] == 'param' and x[1] == f.path and isinstance(x[2], int)}
+        idx = [i for i in range(1, f.argc + 1) if i in from_params and generic_tokens(f.locals[i].get('ty')) & toks]
+        css = [cs for cs in callers.get(f.path, []) if not cs.indirect and cs.fn.path != f.path and cs.fn.crate in CRATES
+               and not cs.fn.derived and f.path in cs.names()]
+        n = 0
+        if idx and css and depth < 5:
+            for cs in css:
+                for i in idx:
+                    l2 = _arg_local(cs.fn, cs.args[i - 1]) if i - 1 < len(cs.args) else None
+                    if l2 is None:
+                        continue
+                    n += 1
+                    b = unify(f.locals[i].get('ty'), l2['ty'], toks)
+                    v2 = sl.operand(cs.fn, cs.args[i - 1])
+                    if b is None:
+                        go(cs.fn, l2['ty'], v2, sink, depth + 1)    # shapes differ: the whole argument type (over-approximation)
+                    else:
+                        for tok, bound in sorted(b.items()):
+                            if tok in toks:
+                                go(cs.fn, bound, v2, sink, depth + 1)
+        if not n:
+            rows.append((sink, None, ty))
+
+    for f in prog.fns.values():
+        if f.crate not in CRATES or f.derived:
+            continue
+        for c in f.calls:
+            if c.indirect or not c.args or not any(SINK_RX.match(n) for n in c.names()):
+                continue
+            loc = _arg_local(f, c.args[0])
+            if loc is None:
+                rows.append((c, None, '?'))
+                continue
+            go(f, loc['ty'], sl.operand(f, c.args[0]), c, 0)
+    return rows
